@@ -24,6 +24,8 @@ Inductive c19case :=
 | CPanic (a : attr) (panicked : list bool)
 (* compile-time refusal, function form and trait form *)
 | CRefuse (a : attr) (refused_fn refused_trait : bool)
+(* a declaration with [n] extractor parameters: refused iff beyond the maximum *)
+| CRefuseArity (n : N) (refused_fn refused_trait : bool)
 (* a trait-level tag_config with probe endpoints: [cfgs] = get_tag_config()
    of the description built from the implementation and from the stub (of a
    trait that can always be built); [refused] = per style (functions on an
@@ -65,6 +67,9 @@ Definition judge (c : c19case) : N :=
       let m := match expand Function a with Err (CompileErrors _) => true | _ => false end in
       let m' := match expand TraitImpl a with Err (CompileErrors _) => true | _ => false end in
       if bool_eqb rf m && bool_eqb rt m'
+      then V_AGREE else V_DIVERGE
+  | CRefuseArity n rf rt =>
+      if bool_eqb rf (negb (arity_compiles n)) && bool_eqb rt (negb (arity_compiles n))
       then V_AGREE else V_DIVERGE
   | CTagCfg arg eps cfgs refused docs_same =>
       if negb ((length cfgs =? 2)%nat && all3 refused) then V_MALFORMED else
